@@ -25,12 +25,12 @@ def r_initclass(root):
     if not set(need) <= set(ps): raise AnalysisError("_init_class: parameters %s do not include %s" % (ps, [n for n in need if n not in ps]))
     fns = {k: v for k, v in helper_functions(root, MM, "TextXMetaModel._init_class").items() if k not in ("_init_class",)}
     W = "TextXMetaModel._init_class"
-    def scenario(prior_own, bases_own):
+    def scenario(prior_own, bases_own, nsname="pkg"):
         old_mm = {".kind": "metamodel", ".tag": "old"}
         base = pyeval.ClassObj("Base", bases_own(old_mm)) if bases_own else None
         cls = pyeval.ClassObj("Sub", prior_own(old_mm) if prior_own else {}, bases=[base] if base else [])
         ns = {}
-        me = {".kind": "metamodel", ".tag": "new", ".file_name": "new.tx", ".namespaces": {"pkg": ns, "__base__": {}}, "._namespace_stack": ["__base__", "pkg"], ".rootcls": None}
+        me = {".kind": "metamodel", ".tag": "new", ".file_name": "new.tx", ".namespaces": {nsname: ns, "__base__": ns if nsname == "__base__" else {}, "other": {}}, "._namespace_stack": ["other", nsname], ".rootcls": None}
         peg = {".kind": "peg-rule"}
         env = {"__functions__": fns, ps[0]: me, "cls": cls, "peg_rule": peg, "position": 5, "position_end": None, "inherits": None, "root": False, "rule_type": "common", "external_attributes": True,
                "OrderedDict": pyeval.PyFn(lambda *a: {}), "RULE_MATCH": "match", "RULE_COMMON": "common", "RULE_ABSTRACT": "abstract"}
@@ -56,6 +56,13 @@ def r_initclass(root):
             "after _init_class(..., external_attributes=True) on %s the class's own attribute table is %s and its per-object storage %s: both must be new and empty (they belong to this rule and this meta-model)" % (what, own.get("_tx_attrs", "not its own"), own.get("_tx_obj_attrs", "not its own")))
         rep("C14", "C14.k", own.get("_tx_metamodel") is me and own.get("_tx_filename") == "new.tx" and own.get("_tx_position") == 5 and own.get("_tx_position_end") == 5 and own.get("_tx_type") == "common" and own.get("_tx_peg_rule") is peg and peg.get("._tx_class") is cls, "meta-model, file, positions, rule type, PEG rule",
             "after _init_class on %s the class's own _tx_metamodel/_tx_filename/_tx_position/_tx_position_end/_tx_type/_tx_peg_rule are not those of this call (%s)" % (what, {k: own.get(k, "not its own") for k in ("_tx_filename", "_tx_position", "_tx_position_end", "_tx_type")}))
+    # C25.d  the qualified name in every kind of namespace (the namespace that is current when the class is initialised)
+    for nsname, want in (("pkg.mod", "pkg.mod.Sub"), ("__base__", "Sub"), (None, "Sub"), ("base", "base.Sub"), ("a", "a.Sub"), ("_", "_.Sub"), ("__base__x", "__base__x.Sub")):
+        err, cls, base, me, ns, peg = scenario(None, None, nsname)
+        inst += 1
+        okq = err is None and cls.own.get("_tx_fqn") == want and ns.get("Sub") is cls
+        ob("C25", "C25.d", MM, W, "qualified name of rule Sub in namespace %r" % (nsname,), okq)
+        if not okq: out.append(Finding("C25", "C25.d", MM, W, "namespace %r" % (nsname,), "a class Sub initialised while the namespace %r is current %s; documented: %r (namespace + '.' + name, the bare name in the base namespace) and an entry in that namespace" % (nsname, ("gets the qualified name %r%s" % (cls.own.get("_tx_fqn"), "" if ns.get("Sub") is cls else " and no entry in the namespace")) if err is None else err, want)))
     return inst, out
 def r_initobj(root):
     out = []; inst = 0
